@@ -27,6 +27,8 @@ pub enum APred {
     IsNull(AExpr, bool),
     And(Box<APred>, Box<APred>),
     Or(Box<APred>, Box<APred>),
+    In(AExpr, Vec<V>, bool),
+    Not(Box<APred>),
 }
 
 #[derive(Clone, Debug, Serialize, Deserialize)]
@@ -79,6 +81,13 @@ impl APred {
             APred::IsNull(e, neg) => format!("({} IS {}NULL)", e.render(t), if *neg { "NOT " } else { "" }),
             APred::And(a, b) => format!("({} AND {})", a.render(t), b.render(t)),
             APred::Or(a, b) => format!("({} OR {})", a.render(t), b.render(t)),
+            APred::In(e, vs, neg) => format!(
+                "({} {}IN ({}))",
+                e.render(t),
+                if *neg { "NOT " } else { "" },
+                vs.iter().map(|v| lit_sql(v, Dialect::Vibe)).collect::<Vec<_>>().join(", ")
+            ),
+            APred::Not(a) => format!("(NOT {})", a.render(t)),
         }
     }
 }
@@ -231,6 +240,30 @@ pub fn holds(p: &APred, row: &[V]) -> Option<bool> {
             (Some(false), Some(false)) => Some(false),
             _ => None,
         },
+        APred::In(e, vs, neg) => {
+            let v = eval(e, row);
+            if v == MV::Null {
+                return None;
+            }
+            let mut unknown = false;
+            let mut found = false;
+            for x in vs {
+                match cmp_mv(&v, &mv_of(x)) {
+                    Some(std::cmp::Ordering::Equal) => found = true,
+                    None => unknown = true,
+                    _ => {}
+                }
+            }
+            let r = if found {
+                Some(true)
+            } else if unknown {
+                None
+            } else {
+                Some(false)
+            };
+            r.map(|b| b != *neg)
+        }
+        APred::Not(a) => holds(a, row).map(|b| !b),
     }
 }
 fn and3(a: Option<bool>, b: Option<bool>) -> Option<bool> {
@@ -639,6 +672,8 @@ pub fn where_cols(q: &AQuery) -> Vec<usize> {
                 pcols(a, out);
                 pcols(b, out);
             }
+            APred::In(a, _, _) => ecols(a, out),
+            APred::Not(a) => pcols(a, out),
         }
     }
     let mut v = Vec::new();
